@@ -404,7 +404,8 @@ fn expansions(ws: &Path, work: &Path, target: &Path) -> Result<BTreeMap<String, 
     std::fs::set_permissions(&wrapper, std::fs::Permissions::from_mode(0o755)).map_err(|e| e.to_string())?;
     let nightly_target = target.parent().unwrap_or(target).join("consumer-nightly");
     let out = Command::new("cargo")
-        .args(["+nightly", "check", "--offline", "--workspace", "--keep-going", "-q", "--target-dir"])
+        .arg(std::env::var("VERIF_NIGHTLY").unwrap_or_else(|_| "+nightly".into()))
+        .args(["check", "--offline", "--workspace", "--keep-going", "-q", "--target-dir"])
         .arg(&nightly_target)
         .current_dir(ws)
         .env("CARGO_NET_OFFLINE", "true")
